@@ -25,7 +25,7 @@ ASSUMPTIONS = [
     "v1 comparison is restricted to the v1 schema (no formal charge/spin, no attribs)",
 ]
 REQUIRED = {"roundtrip.v2.mol": 50, "roundtrip.v2.ens": 20, "roundtrip.v1.mol": 10, "roundtrip.v1.ens": 10,
-            "read.fresh-handle": 50, "source-unchanged": 50}
+            "read.fresh-handle": 50, "source-unchanged": 50, "read.again-after-editing-previous-result": 50}
 CHUNK_TIMEOUT = 900
 
 RTOL, ATOL = 1.2e-7, 1e-38
@@ -102,6 +102,10 @@ def run_chunk(spec, ctx):
 
     tag = f"v{version}.{kind}"
     before = {}
+
+    def j_of(key):
+        return objs[key][0][1]
+
     # ---- write in 1..3 sessions
     nsess = 1 + spec["chunk"] % 3
     for s in range(nsess):
@@ -135,6 +139,36 @@ def run_chunk(spec, ctx):
             ctx.violation(f"roundtrip-differs:{tag}:{field}", case=case, route=route, diff=d[:5], obj=brief(x))
         if par:
             ctx.violation(f"readback-parent-or-index-wrong:{tag}:{par[0][0]}", case=case, route=route, bad=par[:4])
+        return y
+
+    def reread_after_mutation(lib_, key, y, route):
+        """what is read back is what is STORED: editing a returned object must not change the next read"""
+        case, x = objs[key]
+        try:
+            y.name = "edited-after-read"
+            y.charge = (y.charge or 0) + 7
+            y.attrib["edited"] = True
+            if y.n_atoms:
+                y.atoms[0].label = "EDITED"
+                y.atoms[-1].formal_charge = 9
+                y.coords[...] = 12345.0
+                y.atomic_charges[...] = -9.0
+            if kind == "ens" and y.n_conformers:
+                y.weights[...] = 77.0
+        except Exception:  # noqa
+            return
+        try:
+            y2 = lib_[key]
+        except Exception as e:  # noqa
+            ctx.violation(f"read-raises:{tag}:second-read:{type(e).__name__}", case=case, route=route)
+            return
+        ctx.count("read.again-after-editing-previous-result")
+        sy = snap(y2)
+        a, b = (restrict_v1(before[key]), restrict_v1(sy)) if version == 1 else (before[key], sy)
+        d = diff(a, b, rtol=RTOL, atol=ATOL)
+        if d:
+            ctx.violation(f"second-read-differs-from-stored:{tag}:{d[0][0].split('[')[0].strip('.')}", case=case, route=route,
+                          diff=d[:4])
 
     # ---- read back: same handle
     with lib.reading():
@@ -155,7 +189,9 @@ def run_chunk(spec, ctx):
                 ctx.violation(f"read-raises:{tag}:{type(e).__name__}:{_where(e)}", case=case, route="same-handle",
                               err=repr(e)[:300], obj=brief(x))
                 continue
-            check(key, y, "same-handle")
+            y = check(key, y, "same-handle")
+            if j_of(key) % 2 == 0:
+                reread_after_mutation(lib, key, y, "same-handle")
         if ctx.only is None and listed != set(before):
             ctx.violation(f"key-set-differs:{tag}", extra=sorted(listed - set(before))[:5],
                           missing=sorted(set(before) - listed)[:5])
@@ -173,7 +209,9 @@ def run_chunk(spec, ctx):
                 ctx.violation(f"read-raises:{tag}:{type(e).__name__}:{_where(e)}", case=case, route="fresh-handle",
                               err=repr(e)[:300])
                 continue
-            check(key, y, "fresh-handle")
+            y = check(key, y, "fresh-handle")
+            if j_of(key) % 2 == 1:
+                reread_after_mutation(lib2, key, y, "fresh-handle")
 
     # ---- read back in a fresh process (thorough): the decoded objects come back as pickles of snapshots
     if spec.get("fresh_process") and ctx.only is None:
